@@ -401,5 +401,18 @@ def run(ctx):
                            "(shared with C09-FCM; the kernel side is C01-KVAR).")
     check_fcm(_Relabel(ctx, {"C09-FCM": "C11-KPRIOR"}))
     check_init(ctx, fn, X)
+    from .C07 import _Relabel as _RL
+    from .C08 import check_returned
+    check_returned(_RL(ctx, {}), "C11-TREND")
+    ctx.rule("C11-PURE", "the initial point is the chosen sample: setup_mcmc, and the diagnostics / selectors it calls on the samples (is_P_unimodal, median_period), only read "
+                         "them - an in-place sort of a column view would pair the median period with another row's angles and amplitudes (shared with C19-PURE).")
+    SA_ = "thejoker.samples_analysis"
+    for mod_, q_ in ((TJ, Q), (SA_, "is_P_unimodal"), ("thejoker.samples", "JokerSamples.median_period")):
+        f_ = ctx.prog.func(mod_, q_, "C11-PURE")
+        ps_ = set(A.param_names(f_))
+        ws = A.storage_writes(f_, lambda e: isinstance(e, ast.Name) and e.id in ps_ and e.id not in ("model",))
+        # setup_mcmc's own bookkeeping on the model / prior objects is not a write into the samples
+        ws = [(n_, w_) for n_, w_ in ws if "joker_samples" in A.unparse(n_) or "samples" in A.unparse(n_) or mod_ != TJ]
+        ctx.check("C11-PURE", ws[0][0] if ws else f_, "%s leaves the samples untouched" % q_, not ws, ws[0][1] if ws else "", key="pure:" + q_)
     ctx.assume("twobody / the kernel evaluate K (cos(omega + f) + e cos omega) with M = 2 pi (t - t_ref)/P - M0 (library summary); pymc's Normal logp is the Gaussian log-density")
     ctx.assume("units.to_unit multiplies by base.to(target) (thejoker/units.py, checked by C07-TOUNIT)")
